@@ -59,7 +59,7 @@ def cfgOfJson (j : Json) : Except String H11.Cfg := do
 
 def pcName : H11.Pc → String | .idle => "idle" | .inLoop => "inLoop" | .parked => "parked"
 
-/-- {"cfg":…, "token":…, "ext":…|null, "ops":[{"op":"begin"}|{"op":"ev",…}|{"op":"sendHttp","obj":i,"msg":…}|{"op":"sendWs",…}|{"op":"closed"}|{"op":"terminate"}]} -/
+/-- {"cfg":…, "token":…, "ext":…|null, "ops":[{"op":"begin"}|{"op":"ev",…}|{"op":"sendHttp","obj":i,"msg":…}|{"op":"sendWs",…}|{"op":"closed"}|{"op":"terminate"}|{"op":"deferredClose"}]} -/
 def h11Run : Handler := fun j => do
   let cfg ← cfgOfJson (← j.getObjVal? "cfg")
   let tokenB ← getBytes j "token"
@@ -68,6 +68,14 @@ def h11Run : Handler := fun j => do
   let mut outs : Array Json := #[]
   for opj in (← getArr j "ops") do
     let kind ← getStr opj "op"
+    if kind == "deferredClose" then
+      -- the spawned `stream_send(StreamClosed)` of a stream that answered by itself: `_maybe_recycle`
+      let r := H11.maybeRecycle st
+      st := r.1
+      outs := outs.push (Json.mkObj [("outs", Json.arr (r.2.map outJson).toArray), ("error", Json.null),
+        ("their", hstName st.lib.client), ("our", hstName st.lib.server), ("pc", pcName st.pc), ("cur", optJson toJson st.cur),
+        ("kar", toJson st.keepAliveRequests)])
+      continue
     let op : H11.Op ← match kind with
       | "begin" => pure .begin
       | "ev" => do pure (.ev (← libEvOfJson opj))
